@@ -46,7 +46,7 @@ def main():
         "setup_cmd": "./setup.sh",
         "hooks": {
             "guard": "cargo feature libtw2_verif",
-            "enable": "harness/Cargo.toml enables feature libtw2_verif on the path dependencies that have it (see props/*.json 'features')",
+            "enable": "harness/Cargo.toml.in enables the cargo feature libtw2_verif on the path dependencies libtw2-net and libtw2-teehistorian (the only crates with hooks); every check builds the harness against /repo's working tree with it",
             "baseline_off_cmd": "cd /repo && cargo test --workspace --no-fail-fast --offline",
             "source_commits": json.load(open(os.path.join(vlib.VERIF, "props", "hooks.json")))["source_commits"] if os.path.exists(os.path.join(vlib.VERIF, "props", "hooks.json")) else [],
             "add_only": True,
